@@ -8,7 +8,7 @@ import json
 import math
 import random
 
-from harness import gridlib, tlc
+from harness import alpha, gridlib, tlc
 
 FAMILY = {
     "C01": ("c01_", ("P", "PAIR", "ZONE", "CM", "TM", "TMA")),
@@ -50,7 +50,8 @@ def build(world, strata, prop, quick, rnd):
                     evs.append(world.pair_event("projection", (lat, lon, zone, ell, prj), (lat, lon, zone, ell, p2), tag))
                     E = ell[1]
                     lam = rnd.choice([0.99, 1.004, 0.9875])
-                    e2 = ("rand", gc.Ellipsoid(round(float(E.semimaj) * lam, 3), E.inversef))
+                    a_, invf_ = alpha.defn(E, "semimaj", "inversef")
+                    e2 = ("rand", alpha.build(gc.Ellipsoid, round(a_ * lam, 3), invf_))
                     evs.append(world.pair_event("homothety", (lat, lon, zone, ell, prj), (lat, lon, zone, e2, prj), tag))
                 if prop == "C01":
                     evs.append(world.pair_event("same_call", (lat, lon, zonearg, ell, prj), (lat, lon, zonearg, ell, prj, "dec"), tag))
@@ -107,10 +108,11 @@ def build(world, strata, prop, quick, rnd):
         ellc = ["grs80", "wgs84", "ans", "intl24", "rand", "rand"]
         for k in range({"C01": 90, "C02": 40, "C10": 90}[prop] if quick else 2500):
             ell = world.get_ell(ellc[k % 6])
-            prj = ("utm", gc.utm) if k % 3 else world.rand_prj()
+            prj = ("utm", gc.utm) if k % 3 else (world.rand_prj() if k % 2 else world.rand_prj2())
             P = prj[1]
-            zone = rnd.randint(1, 60)
-            cmz = zone * P.zonewidth + P.initialcm - P.zonewidth
+            _fe, _fn, _k0, zw_, cm1_ = alpha.defn(P, "falseeast", "falsenorth", "cmscale", "zonewidth", "initialcm")
+            zone = rnd.randint(1, max(1, min(60, int((180 - cm1_) // zw_) + 1)))
+            cmz = zone * zw_ + cm1_ - zw_
             if not (-180 <= cmz <= 180):
                 continue
             lat = rnd.choice([rnd.uniform(-79.9, 83.9), rnd.uniform(-79.9, 83.9), rnd.uniform(-1e-6, 1e-6), 83.9999, -79.9999, rnd.uniform(-10, 10),
